@@ -391,6 +391,19 @@ class World:
                     self.features.add('zero_value')
         return b
 
+    def fan_out_tx(self, u, height, n, script):
+        '''One tx spending the most valuable output of u into n outputs to script.'''
+        o = max(u, key=lambda k: u[k][1])
+        sc, v, _h = u[o]
+        per = max(1, v // (n + 1))
+        self.salt += 1
+        return Tx([(o[0], o[1], b'', MINUS1)], [(per, script)] * n, locktime=self.salt)
+
+    def fan_in_tx(self, outpoints, u, script):
+        total = sum(u[o][1] for o in outpoints)
+        self.salt += 1
+        return Tx([(o[0], o[1], b'', MINUS1) for o in outpoints], [(total, script)], locktime=self.salt)
+
     # -- daemon operations (each bumps the world version)
     def mine(self, n=1, *, confirm='all', **kw):
         '''Extend the active chain by n blocks.  confirm: 'all' | 'none' | iterable of tx hashes - which
